@@ -64,6 +64,8 @@ type renderer struct {
 	noParen  map[*syntax.TupleExpr]bool
 	atStart  bool // at the start of a logical line (no token emitted yet on it)
 	elif     map[*syntax.IfStmt]bool
+	onToken  func(string, syntax.Position)
+	before   func(syntax.Stmt) string
 	Spelling func(r *rand.Rand, lit *syntax.Literal) string // optional literal speller
 }
 
@@ -74,12 +76,18 @@ type Options struct {
 	NoParen  map[*syntax.TupleExpr]bool                     // tuples to render without parentheses
 	Elif     map[*syntax.IfStmt]bool                        // IfStmts (sole statement of an else branch) to spell 'elif'
 	Spelling func(r *rand.Rand, lit *syntax.Literal) string // chooses Raw for a literal whose Raw is empty
+	// OnToken, if set, is called for every token emitted (text and position), in order. NEWLINE,
+	// INDENT and OUTDENT are not reported; comments and white space are not tokens.
+	OnToken func(text string, pos syntax.Position)
+	// BeforeStmt, if set, returns raw text to insert before the given statement; it must consist of
+	// whole lines that are blank or comments (each ending in "\n"), e.g. to create huge line gaps.
+	BeforeStmt func(s syntax.Stmt) string
 }
 
 // Render renders the statements and stores every token position in the nodes.
 func Render(stmts []syntax.Stmt, r *rand.Rand, o Options) string {
 	fn := o.Filename
-	w := &renderer{r: r, lay: o.Layout, line: 1, col: 1, fname: &fn, noParen: o.NoParen, elif: o.Elif, atStart: true, Spelling: o.Spelling}
+	w := &renderer{r: r, lay: o.Layout, line: 1, col: 1, fname: &fn, noParen: o.NoParen, elif: o.Elif, atStart: true, Spelling: o.Spelling, onToken: o.OnToken, before: o.BeforeStmt}
 	if w.noParen == nil {
 		w.noParen = map[*syntax.TupleExpr]bool{}
 	}
@@ -90,7 +98,7 @@ func Render(stmts []syntax.Stmt, r *rand.Rand, o Options) string {
 // RenderExpr renders a single expression (as for ParseExpr).
 func RenderExpr(e syntax.Expr, r *rand.Rand, o Options) string {
 	fn := o.Filename
-	w := &renderer{r: r, lay: o.Layout, line: 1, col: 1, fname: &fn, noParen: o.NoParen, atStart: true, Spelling: o.Spelling}
+	w := &renderer{r: r, lay: o.Layout, line: 1, col: 1, fname: &fn, noParen: o.NoParen, atStart: true, Spelling: o.Spelling, onToken: o.OnToken}
 	if w.noParen == nil {
 		w.noParen = map[*syntax.TupleExpr]bool{}
 	}
@@ -182,6 +190,9 @@ func (w *renderer) tok(s string) syntax.Position {
 	p := w.pos()
 	w.raw(s)
 	w.lastNum = false
+	if w.onToken != nil {
+		w.onToken(s, p)
+	}
 	return p
 }
 
@@ -413,7 +424,9 @@ func (w *renderer) expr1(e syntax.Expr) {
 			}
 			return
 		}
-		e.Lparen = w.open("(")
+		// The parser represents a parenthesised non-empty tuple as ParenExpr{TupleExpr} and sets
+		// the tuple's own Lparen/Rparen only for the empty tuple; ParenExpr is erased by Compare.
+		lp := w.open("(")
 		for i, x := range e.List {
 			if i > 0 {
 				w.tok(",")
@@ -424,7 +437,11 @@ func (w *renderer) expr1(e syntax.Expr) {
 		if len(e.List) == 1 || len(e.List) > 1 && w.chance(w.lay.TrailingComma) {
 			w.tok(",")
 		}
-		e.Rparen = w.close(")")
+		rp := w.close(")")
+		e.Lparen, e.Rparen = syntax.Position{}, syntax.Position{}
+		if len(e.List) == 0 {
+			e.Lparen, e.Rparen = lp, rp
+		}
 	case *syntax.UnaryExpr:
 		e.OpPos = w.tok(e.Op.String())
 		if e.Op == syntax.NOT {
@@ -609,6 +626,9 @@ func (w *renderer) interStmt(indent string) {
 func (w *renderer) stmts(list []syntax.Stmt, indent string) {
 	for i := 0; i < len(list); i++ {
 		w.interStmt(indent)
+		if w.before != nil {
+			w.raw(w.before(list[i]))
+		}
 		w.raw(indent)
 		w.atStart = true
 		w.stmt(list[i], indent)
